@@ -26,6 +26,127 @@ def stir(ctx, rounds=1):
             except Exception:
                 pass
             n += 2
+        # public helpers called directly, with spelled (not natural) targets, non-default pitches and flags
+        try:
+            from mingus.core import intervals
+            from mingus.containers import Note
+            pure = list(__import__("rv.models.theory", fromlist=["pure_names"]).pure_names(2))
+            for _i in range(120):
+                a, b = rng.choice(pure), rng.choice(pure)
+                try:
+                    intervals.augment_or_diminish_until_the_interval_is_right(a, b, rng.randrange(12))
+                    intervals.get_interval(a, rng.randrange(12), rng.choice(["C", "G", "F"]))
+                    x = Note(rng.randint(0, 120))
+                    x.to_hertz(rng.choice([415, 442, 432.5]))
+                    Note().from_hertz(rng.uniform(20, 8000), rng.choice([415, 442, 220]))
+                except Exception:
+                    pass
+                n += 4
+        except Exception:
+            pass
         gc.collect()
     ctx.count("after-history: read-only calls stirred into the interpreter before the second pass", n)
+    return n
+
+
+def fault_stir(ctx):
+    """Calls that the library must refuse (malformed names, unknown shorthands, out-of-range arguments, unplayable
+    notes, files that are not MIDI). Each is expected to raise; what matters is that a refused call leaves nothing
+    behind: the shard's workload runs afterwards in the same interpreter. Run at the start of every shard that is
+    not marked cold/bare."""
+    import os
+    import tempfile
+    n = 0
+    calls = []
+    try:
+        from mingus.core import notes, intervals, keys, chords, progressions, scales, value, meter
+        from mingus.containers import Note, NoteContainer, Bar, Track, Composition
+        from mingus.containers.instrument import Piano, Guitar
+        calls += [
+            lambda: notes.note_to_int("H"), lambda: notes.note_to_int("C#x"), lambda: notes.int_to_note(12), lambda: notes.int_to_note(3, "x"),
+            lambda: notes.reduce_accidentals("Cx"), lambda: intervals.interval("C", "H", 2), lambda: intervals.second("H", "C"),
+            lambda: intervals.interval("X", "C", 2), lambda: keys.get_notes("X"), lambda: keys.get_key(9), lambda: keys.Key("G##"),
+            lambda: keys.relative_major("C"), lambda: chords.from_shorthand("Cfoo"), lambda: chords.from_shorthand("H7"),
+            lambda: chords.from_shorthand("C/H"), lambda: chords.from_shorthand(["C", "Xm"]), lambda: chords.from_shorthand("Cm7|Hdim"),
+            lambda: chords.determine(["C", "E", "H"]), lambda: chords.triads("X"), lambda: chords.sevenths("q"),
+            lambda: progressions.to_chords("Ifoo", "C"), lambda: progressions.to_chords(["I", "Vbar"], "G"),
+            lambda: progressions.determine(["C", "E", "H"], "C"), lambda: scales.Major("c"), lambda: scales.Major("X").ascending(),
+            lambda: scales.NaturalMinor("H", 2).ascending(), lambda: scales.Chromatic("X"), lambda: scales.Major("C").degree(0),
+            lambda: scales.Major("C").degree(9), lambda: scales.Major("C").degree(1, "x"), lambda: scales.determine(["C", 5]),
+            lambda: value.determine(0), lambda: value.dots(4, "x"), lambda: meter.is_valid((4,)), lambda: meter.valid_beat_duration("4"),
+            lambda: Note("H"), lambda: Note("C", 4, velocity=300), lambda: Note("C", 4, channel=16), lambda: Note("C-4-5"), lambda: Note(3.5),
+            lambda: Note("C").transpose("9"), lambda: Note().from_shorthand("x"), lambda: NoteContainer(["C", 5]),
+            lambda: NoteContainer().add_note(5), lambda: NoteContainer(["C", "E"]).add_notes(["G", ["H", 4]]),
+            lambda: NoteContainer().from_chord_shorthand("Cfoo"), lambda: NoteContainer().from_interval("C", "9"),
+            lambda: Bar("C", (4, 3)), lambda: Bar("C", (4, 0)), lambda: Bar("X", (4, 4)), lambda: Bar().place_notes("H", 4),
+            lambda: Bar().place_notes("C", 0), lambda: Bar().remove_last_entry(), lambda: Bar().place_notes_at("C", 0.0) or Bar()[3],
+            lambda: Track(Piano()).add_notes(Note("C", 9)), lambda: Track(Guitar()).add_notes(["C-4"] * 7, 4),
+            lambda: Track().from_chords(["C", "Xfoo"], 1), lambda: Track().__setitem__(0, 5), lambda: Composition().add_track(5),
+            lambda: Composition()[2],
+        ]
+    except Exception:
+        pass
+    try:
+        from mingus.extra import tunings, tablature, lilypond, musicxml
+        g = tunings.get_tuning("Guitar", "Standard")
+        calls += [
+            lambda: g.find_fingering(["E-2", "H-2"]), lambda: g.find_fingering([Note("E", 3), "H"]), lambda: g.get_Note(99, 0),
+            lambda: g.get_Note(0, 99), lambda: g.find_frets("H"), lambda: g.find_chord_fingering(["C", "H"]),
+            lambda: tablature.from_Note(Note("C", 0)), lambda: tablature.from_NoteContainer(NoteContainer([Note("E", 3), Note("F", 3)])),
+            lambda: tablature.from_Bar(5), lambda: lilypond.from_Bar(5) and None, lambda: musicxml.from_Bar(5),
+            lambda: tunings.get_tuning("nonexistent", "x").find_frets("C"),
+        ]
+    except Exception:
+        pass
+    try:
+        from mingus.midi import midi_file_in, midi_file_out
+        from mingus.midi.midi_track import MidiTrack
+        from mingus.midi.sequencer import Sequencer
+        d = tempfile.mkdtemp(prefix="rv-fault-")
+        bad = os.path.join(d, "bad.mid")
+        with open(bad, "wb") as f:
+            f.write(b"MThd\x00\x00\x00\x06\x00\x01\x00\x01\x00\x48MTrX\x00\x00\x00\x04\x00\xff\x2f\x00")
+
+        def velo():
+            n_ = Note("C", 4)
+            n_.velocity = 300
+            return MidiTrack().play_Note(n_)
+        calls += [lambda: midi_file_in.MIDI_to_Composition(bad), lambda: midi_file_in.MIDI_to_Composition(os.path.join(d, "missing.mid")),
+                  velo, lambda: MidiTrack().set_tempo(0), lambda: MidiTrack().play_Bar(5), lambda: midi_file_out.write_Bar(bad, 5),
+                  lambda: Sequencer().play_Bar(5), lambda: Sequencer().play_Tracks([], []), lambda: Sequencer().play_Bars([Bar()], [1])]
+    except Exception:
+        d = None
+    try:
+        # an export that fails half way through a track (the second bar cannot be rendered)
+        from mingus.extra import lilypond as _ly, musicxml as _mx, tablature as _tb
+        from mingus.midi import midi_file_out as _mo
+
+        def broken_track():
+            t_ = Track()
+            b1 = Bar("Eb", (3, 4))
+            b1.place_notes("G", 4), b1.place_notes("Bb", 2)
+            b2 = Bar("f#", (6, 8))
+            b2.place_notes("A", 8)
+            b2.bar.append([0.125, 4, ("C", "E")])       # not a container
+            t_.add_bar(b1), t_.add_bar(b2)
+            return t_
+        calls += [lambda: _ly.from_Track(broken_track()), lambda: _mx.from_Track(broken_track()), lambda: _tb.from_Track(broken_track()),
+                  lambda: _mo.write_Track(os.path.join(d or "/nonexistent", "x.mid"), broken_track())]
+    except Exception:
+        pass
+    refused = 0
+    for c in calls:
+        try:
+            c()
+        except BaseException as e:
+            if isinstance(e, (KeyboardInterrupt, SystemExit)):
+                raise
+            refused += 1
+        n += 1
+    if d:
+        import shutil
+        shutil.rmtree(d, ignore_errors=True)
+    ctx.count("fault-prelude: calls the library must refuse, made before the workload (refused: see extra)", n)
+    ctx.extra["fault_prelude_calls"] = n
+    ctx.extra["fault_prelude_refused"] = refused
     return n
